@@ -117,9 +117,9 @@ EXTRA = [
 def _dom(tier):
     if tier == "thorough":
         return dict(alphabet=BASE + EXTRA, maxlen=3, nmax=7, kinf=8, horizon=20,
-                    styles=("pair", "bare"), forms=("seq", "source", "source-iter"))
+                    styles=("pair", "bare"), forms=("seq", "seq-iterable", "source", "source-iter"))
     return dict(alphabet=BASE, maxlen=2, nmax=6, kinf=6, horizon=16,
-                styles=("pair", "bare"), forms=("seq", "source", "source-iter"))
+                styles=("pair", "bare"), forms=("seq", "seq-iterable", "source", "source-iter"))
 
 
 def describe(tier):
@@ -201,6 +201,17 @@ def stateless(pipeline):
     return all(ok(s) for s in pipeline)
 
 
+class _Iterable(object):
+    """A flow that is an iterable, not an iterator: a container-like object that generates its values
+    lazily (here: hands out the instrumented source)."""
+
+    def __init__(self, src):
+        self._src = src
+
+    def __iter__(self):
+        return self._src
+
+
 def run_schedule(pipeline, form, n, style, stage, k, limit, bound_live, warmup=False):
     """Execute one consumer schedule on fresh objects. Returns a dict of observations.
     *warmup*: before the schedule, the same pipeline object is run over another flow by a consumer
@@ -213,7 +224,7 @@ def run_schedule(pipeline, form, n, style, stage, k, limit, bound_live, warmup=F
         els = [M.build_element(spec, log, j + 1) for j, spec in enumerate(pipeline)]
         src = M.Source(n, style, log, limit)
         holder = [src]
-        if form == "seq":
+        if form in ("seq", "seq-iterable"):
             seq = lena.core.Sequence(*els)
         elif form == "source-iter":
             # the first element of the Source is the (one-shot) iterator itself, not a callable
@@ -229,7 +240,8 @@ def run_schedule(pipeline, form, n, style, stage, k, limit, bound_live, warmup=F
             wsrc = M.Source(n, style, wlog, limit)
             holder[0] = wsrc
             try:
-                wit = seq.run(wsrc) if form == "seq" else seq()
+                wit = (seq.run(wsrc) if form == "seq" else
+                       seq.run(_Iterable(wsrc)) if form == "seq-iterable" else seq())
                 next(wit, None)
             except (M.Runaway, Exception):  # noqa: no first result to take - judged without warm-up
                 wit = None
@@ -249,7 +261,8 @@ def run_schedule(pipeline, form, n, style, stage, k, limit, bound_live, warmup=F
             obs["warm_log_len"] = len(wlog)
         if stage != "built":
             try:
-                it = seq.run(src) if form == "seq" else seq()
+                it = (seq.run(src) if form == "seq" else
+                      seq.run(_Iterable(src)) if form == "seq-iterable" else seq())
             except (M.Runaway, Exception) as e:  # noqa: run() itself worked on the flow and failed
                 it = iter(())
                 obs["status"] = "run-call-" + ("runaway" if isinstance(e, M.Runaway) else "raised " + type(e).__name__)
